@@ -389,7 +389,11 @@ func oracleC19(c *NCase) (f *ev.Failure) {
 	in := want
 	if c.Inflate > 0 {
 		// same fields but the declared nested length runs past the end of the buffer
-		hdr2 := refwire.AppendVarint(refwire.AppendKey(nil, c.Num, refwire.WTLen), uint64(len(M)+len(suffix))+c.Inflate)
+		decl := uint64(len(M)+len(suffix)) + c.Inflate
+		if c.Inflate >= 1<<62 {
+			decl = c.Inflate // (an absolute declared length at the top of the int64 / uint64 range)
+		}
+		hdr2 := refwire.AppendVarint(refwire.AppendKey(nil, c.Num, refwire.WTLen), decl)
 		in = append(append(append(append([]byte{}, prefix...), hdr2...), M...), suffix...)
 	}
 	d := csproto.NewDecoder(in)
@@ -487,7 +491,8 @@ func genNCase(t *rapid.T) *NCase {
 	genNested(t, &c.Nested, rapid.SampledFrom(c19Flavours).Draw(t, "flavour"), true)
 	n := &c.Nested
 	if !n.FailM && !n.FailU && rapid.IntRange(0, 5).Draw(t, "inflate") == 0 {
-		c.Inflate = rapid.SampledFrom([]uint64{1, 2, 127, 1 << 20, 1<<31 - 100, 1 << 31, 1 << 40, 1<<64 - 1 - (1 << 30)}).Draw(t, "infl")
+		c.Inflate = rapid.SampledFrom([]uint64{1, 2, 127, 1 << 20, 1<<31 - 100, 1 << 31, 1 << 40, 1<<64 - 1 - (1 << 30),
+			1<<63 - 1, 1<<63 - 2, 1<<63 - 4, 1<<63 - 9, 1<<63 - 11, 1<<63 - 17, 1 << 63, 1<<63 + 5, 1 << 62, 1<<64 - 1}).Draw(t, "infl")
 	}
 	c.Fast = rapid.Bool().Draw(t, "fastdecoder")
 	if n.Flavour != "gv2-nil" && rapid.IntRange(0, 2).Draw(t, "reuse") == 0 {
@@ -539,7 +544,7 @@ func genNested(t *rapid.T, n *NestedSpec, flavour string, mayFail bool) {
 	}
 }
 
-const ruleC19 = "case = nested message of one of the flavours {MarshalTo stub, Marshal-only stub, plain gogo (descriptor.DescriptorProto), plain pre-APIv2 Google v1 struct with XXX_ methods, plain Google v2 incl. well-known types and typed nil, proto2 message with required fields known only to Google v2 / gogo (unset => its runtime refuses to marshal it and to unmarshal the empty payload), Google v2 message without required fields of its own whose CHILD has unset required fields} x value (incl. empty; nested sizes at the 1-, 2- and 3-byte length-prefix limits, deterministic sweep for the stubs) x decoder mode {safe, fast} x decode target {fresh, already holding another value of the flavour} x encoded object {fresh, Google v2 message that held another value, was sized and marshaled, then changed in place} x 0..3 scalar fields before and after x field number up to 2^29-1 x failing nested marshaler/unmarshaler x declared length inflated beyond the buffer; " +
+const ruleC19 = "case = nested message of one of the flavours {MarshalTo stub, Marshal-only stub, plain gogo (descriptor.DescriptorProto), plain pre-APIv2 Google v1 struct with XXX_ methods, plain Google v2 incl. well-known types and typed nil, proto2 message with required fields known only to Google v2 / gogo (unset => its runtime refuses to marshal it and to unmarshal the empty payload), Google v2 message without required fields of its own whose CHILD has unset required fields} x value (incl. empty; nested sizes at the 1-, 2- and 3-byte length-prefix limits, deterministic sweep for the stubs) x decoder mode {safe, fast} x decode target {fresh, already holding another value of the flavour} x encoded object {fresh, Google v2 message that held another value, was sized and marshaled, then changed in place} x 0..3 scalar fields before and after x field number up to 2^29-1 x failing nested marshaler/unmarshaler x declared length inflated beyond the buffer (by 1 .. 2^40, or set to a value at the top of the int64 / uint64 range); " +
 	"oracle: exactly-sized sentinel-backed buffer == prefix|key|varint(len M)|M|suffix with M=csproto.Marshal(m); DecodeNested advances by exactly prefix+len, message equal, suffix decodes, nested errors propagate (errors.Is), inflated length is rejected with 0 calls of the nested decoder; " +
 	"non-trivial = non-empty nested message in a flavour other than MarshalTo, or a failing stub, or an inflated length; distinct by case content"
 
